@@ -47,6 +47,7 @@ def main():
             results[i] = row
         finally:
             sh(["git", "-C", REPO, "checkout", "--", "."])
+            sh([sys.executable, os.path.join(ROOT, "tools", "translate.py")])   # regenerate the tables from the restored tree
     json.dump(results, open(resfile, "w"), indent=1, sort_keys=True)
     # leave the tree clean and the caches rebuilt against the unchanged code
     return 0
